@@ -461,5 +461,6 @@ def run(ctx):
   shared.rule_single_traversal(ctx, 'C09.R9', ['quantizer:Quantizer.calibrate', 'calibrator:Calibrator.calibrate'])
   # every selected operator is calibrated on every sample: the operator loop asks the recipe once per operator, with that operator's own scope (C10.R2)
   r11_calibration_numeric(ctx)
+  c10.r9_signature_subgraph_table(ctx, 'C09.R12')
   from sa.rules import c10, c19  # pylint: disable=g-import-not-at-top
   c19._relabel(ctx, 'C10.R2', 'C09.R10', 'every operator of every sample is looked up in the recipe with its own scope - no per-type or per-round shortcut (C10.R2)', c10.r2_one_protocol)
